@@ -96,8 +96,12 @@ class Node(object):
         """
         if children:
             node = cls.get_node_instance(id)
-            for child in node.children:
-                cls.delete_node_instance(child.id)
+            descendants = list(node.children)
+            while descendants:
+                descendant = descendants.pop()
+                # A descendant may already have been removed on its own
+                Node.store.pop(descendant.id, None)
+                descendants.extend(descendant.children)
         del Node.store[id]
 
     @classmethod
